@@ -1,8 +1,10 @@
 #!/bin/bash
-# usage: tools/import_mutants.sh <ID>...   copy confirmed seeded changes from /tmp/mut/out into /verif/seeded (development aid)
+# usage: tools/import_mutants.sh <out-dir> <offset> <ID>...   copy confirmed seeded changes from <out-dir>/<ID>/<k>
+# into /verif/seeded/<ID>-<k+offset> (development aid)
+OUT="$1"; OFF="$2"; shift 2
 for id in "$@"; do for k in 1 2 3; do
-	src=/tmp/mut/out/$id/$k; [ -f "$src/patch.diff" ] || continue
-	dst=/verif/seeded/$id-$k; mkdir -p "$dst/demo"
+	src=$OUT/$id/$k; [ -f "$src/patch.diff" ] || continue
+	dst=/verif/seeded/$id-$((k+OFF)); mkdir -p "$dst/demo"
 	cp "$src/patch.diff" "$dst/"; cp "$src/confirm.log" "$dst/" 2>/dev/null
 	# demonstration: sources and notes only (no binaries, no build output)
 	( cd "$src/demo" 2>/dev/null && find . -type f -size -200k \( -name '*.pn' -o -name '*.md' -o -name '*.sh' -o -name '*.txt' -o -name '*.ll' -o -name '*.log' -o -name '*.toml' -o -name '*.out' \) | while read f; do mkdir -p "$dst/demo/$(dirname "$f")"; cp "$f" "$dst/demo/$f"; done )
